@@ -18,8 +18,9 @@ import (
 )
 
 type step struct {
-	Send   string `json:"send"`   // raw bytes to write to stdout
-	Expect bool   `json:"expect"` // read one reply stanza afterwards
+	Send    string `json:"send"`    // raw bytes to write to stdout
+	Expect  bool   `json:"expect"`  // read one reply stanza afterwards
+	Replies int    `json:"replies"` // read this many reply stanzas afterwards (a plugin that does not wait for each reply)
 }
 
 type event struct {
@@ -97,13 +98,22 @@ func main() {
 			break
 		}
 		logEv(event{Ev: "sent", Note: st.Send})
+		n := st.Replies
 		if st.Expect {
+			n = 1
+		}
+		failed := false
+		for k := 0; k < n; k++ {
 			s, err := in.ReadStanza()
 			if err != nil {
 				logEv(event{Ev: "reply-error", Note: err.Error()})
+				failed = true
 				break
 			}
 			logEv(event{Ev: "reply", Type: s.Type, Args: s.Args, Body: s.Body})
+		}
+		if failed {
+			break
 		}
 	}
 	logEv(event{Ev: "end"})
